@@ -21,9 +21,13 @@ extern "C" ssize_t recv(int fd, void* buf, size_t n, int) {
     for (std::size_t i = 0; i < k; ++i) static_cast<char*>(buf)[i] = g_in[fd][i];
     g_in[fd].erase(0, k); return static_cast<ssize_t>(k);
 }
+// back-pressure script per descriptor: each entry is how many bytes the next send() call accepts (0 = EAGAIN); empty = accept everything
+namespace { int g_script[kMaxFd][4]; int g_script_len[kMaxFd]; int g_script_pos[kMaxFd]; }
 extern "C" ssize_t send(int fd, const void* buf, size_t n, int) {
     if (fd < 0 || fd >= kMaxFd) { errno = EBADF; return -1; }
-    g_out[fd].append(static_cast<const char*>(buf), n); return static_cast<ssize_t>(n);
+    std::size_t k = n;
+    if (g_script_pos[fd] < g_script_len[fd]) { const int a = g_script[fd][g_script_pos[fd]++]; if (a == 0) { errno = EAGAIN; return -1; } if (static_cast<std::size_t>(a) < n) k = static_cast<std::size_t>(a); }
+    g_out[fd].append(static_cast<const char*>(buf), k); return static_cast<ssize_t>(k);
 }
 extern "C" int close(int fd) { if (fd >= 0 && fd < kMaxFd) ++g_closed[fd]; return 0; }
 namespace ephemeralnet::relay {
@@ -39,10 +43,11 @@ void EventLoop::stop() {}
 using namespace ephemeralnet; using namespace ephemeralnet::relay;
 namespace {
 const char* kX = "aaaaaaaaaaaaaaaaaaaaaaaaaaaaaaaaaaaaaaaaaaaaaaaaaaaaaaaaaaaaaaaa";      // the registrant's peer id (64 hex characters)
+const char* kY = "eeeeeeeeeeeeeeeeeeeeeeeeeeeeeeeeeeeeeeeeeeeeeeeeeeeeeeeeeeeeeeee";      // a second id the registrant may switch to
 const char* kIdB = "1111111111111111111111111111111111111111111111111111111111111111";
 const char* kIdC = "2222222222222222222222222222222222222222222222222222222222222222";
 using Session = std::shared_ptr<RelayServer::ClientSession>;
-void reset_env() { for (int i = 0; i < kMaxFd; ++i) { g_in[i].clear(); g_out[i].clear(); g_eof[i] = false; g_closed[i] = 0; g_loop_removed[i] = 0; } }
+void reset_env() { for (int i = 0; i < kMaxFd; ++i) { g_in[i].clear(); g_out[i].clear(); g_eof[i] = false; g_closed[i] = 0; g_loop_removed[i] = 0; g_script_len[i] = 0; g_script_pos[i] = 0; } }
 Session add_client(RelayServer& srv, int fd) { auto s = std::make_shared<RelayServer::ClientSession>(fd); srv.sessions_.emplace(fd, s); return s; }
 void deliver(RelayServer& srv, const Session& s, const std::string& bytes) {
     if (s->closing) return;
@@ -84,7 +89,7 @@ extern "C" void h_c25_pairing(unsigned long k, unsigned long first_event) {
         if (counts) stream += bytes;
     };
     for (unsigned long i = 0; i < k; ++i) {
-        std::uint8_t ev = nondet_u8("event"); verif_assume(ev < 9); if (i == 0) verif_assume(ev == first_event);     // the first event is fixed per job (fan-out over the cores)
+        std::uint8_t ev = nondet_u8("event"); verif_assume(ev < 12); if (i == 0) verif_assume(ev == first_event);     // the first event is fixed per job (fan-out over the cores)
         ev = static_cast<std::uint8_t>(verif_concretize(ev, 16));
         switch (ev) {
             case 0: deliver(srv, A, std::string("REGISTER ") + kX + "\n"); break;
@@ -95,7 +100,10 @@ extern "C" void h_c25_pairing(unsigned long k, unsigned long first_event) {
             case 5: disconnect(srv, B); break;
             case 6: from_connector(C, streamC, std::string("CONNECT ") + kIdC + " " + kX + "\n"); break;
             case 7: from_connector(C, streamC, (C->state == RelayServer::SessionState::AwaitingIdentity && streamC.empty() ? identityC : std::string()) + "%" + std::to_string(i)); break;
-            default: disconnect(srv, C); break;
+            case 8: disconnect(srv, C); break;
+            case 9: deliver(srv, A, std::string("REGISTER ") + kY + "\n"); break;
+            case 10: from_connector(B, streamB, std::string("CONNECT ") + kIdB + " " + kY + "\n"); break;
+            default: from_connector(C, streamC, std::string("CONNECT ") + kIdC + " " + kY + "\n"); break;
         }
         for (const auto& s : all) flush(srv, s);
         check_pairing(srv, all, 3);
@@ -145,4 +153,25 @@ extern "C" void h_c26_release(unsigned long scenario) {
     verif_assert(srv.sessions_.empty() && srv.registered_.empty(), "C26: once every client has disconnected the relay holds no sessions or registrations");
     verif_assert(g_closed[3] == 1 && g_closed[4] == 1 && g_closed[5] == 1, "C26: every client descriptor is closed exactly once");
     verif_reach("released");
+}
+// back-pressure: a bridged pair; the registrant's descriptor accepts the relayed bytes in pieces (short write, EAGAIN, rest later):
+// the registrant must receive every byte exactly once and in order
+extern "C" void h_c25_backpressure(unsigned long first, unsigned long second) {
+    reset_env();
+    EventLoop loop; RelayServer srv(loop, RelayServerConfig{});
+    Session all[2] = {add_client(srv, 3), add_client(srv, 4)};
+    const Session &A = all[0], &B = all[1];
+    deliver(srv, A, std::string("REGISTER ") + kX + "\n");
+    deliver(srv, B, std::string("CONNECT ") + kIdB + " " + kX + "\n");
+    const std::string before = received(A);
+    // from here on A's socket is slow: the next send() calls take `first` bytes, then EAGAIN, then `second` bytes, then everything
+    g_script[A->fd][0] = static_cast<int>(first); g_script[A->fd][1] = 0; g_script[A->fd][2] = static_cast<int>(second); g_script_len[A->fd] = 3; g_script_pos[A->fd] = 0;
+    std::string stream = std::string(32, '{');
+    for (int i = 0; i < 24; ++i) stream.push_back(static_cast<char>('a' + i));
+    deliver(srv, B, stream);
+    for (int round = 0; round < 4; ++round) flush(srv, A);
+    const std::string ra = received(A);
+    const std::string begin = std::string("BEGIN ") + kIdB + "\n";
+    verif_assert(ra == before + begin + stream, "C25: under back-pressure the partner still receives every relayed byte exactly once and in order");
+    verif_reach("delivered");
 }
